@@ -11,20 +11,44 @@ import verif
 import servecommon as sc
 
 
+DEV2_SEEN = []
+
+
 def design_check(ctx, quick):
     cfgs = [("top", sc.mux_mc_cfg("U_top", "E_top")),
             ("iq", sc.mux_mc_cfg("U_iq", "E_iq")),
             ("iqr", sc.mux_mc_cfg("U_iqr", "E_iqr")),
             ("msg", sc.mux_mc_cfg("U_msg", "E_msg")),
             ("pres", sc.mux_mc_cfg("U_pres", "E_pres")),
-            ("replay", sc.mux_mc_cfg("U_replay", "E_replay2" if quick else "E_replay", '{"h1", "h2"}', "all"))]
+            ("replay", sc.mux_mc_cfg("U_replay", "E_replay2" if quick else "E_replay", '{"h1", "h2"}', "all")),
+            # nested routing: a message / presence handler routes another stanza through the same multiplexer
+            ("nest", sc.mux_mc_cfg("U_nest", "E_nest", '{"h"}', "L" if quick else "few", inner="I_nest")),
+            # construction: mux.New / zero value + options / options after New / registration after first use
+            ("ctor", sc.mux_mc_cfg("U_ctor", "E_ctor", ctors="<- AllCtors"))]
     states = gen = 0
     per = {}
-    for name, cfg in cfgs:
-        r = ctx.model_check("MCMux", cfg, sc.MUX_INVS + sc.MUX_PROPS, workers=6, timeout=900, name="MCMux_" + name)
-        states += r.distinct
-        gen += r.generated
-        per[name] = r.distinct
+    with cf.ThreadPoolExecutor(max_workers=4) as ex:
+        futs = [(name, ex.submit(ctx.model_check, "MCMux", cfg, sc.MUX_INVS + sc.MUX_PROPS, workers=3, timeout=1500, name="MCMux_" + name, heap=sc.EMIT_JVM))
+                for name, cfg in cfgs]
+        # non-vacuity: the code-like deviation (the replay buffer's storage belongs to the multiplexer and is reused by the
+        # stanza routed meanwhile) must break "handed the complete stanza from its start element"
+        dev = ex.submit(ctx.tlc, "MCMux", sc.mux_mc_cfg("U_nest", "E_nest", '{"h"}', "L", inner="I_nest", dev='{"SharedBuffer"}'),
+                        workers=2, timeout=900, name="MCMux_nestdev", heap=sc.EMIT_JVM)
+        # (the stanza routers are values made once by New: a multiplexer made from the zero value routes no stanza)
+        dev2 = ex.submit(ctx.tlc, "MCMux", sc.mux_mc_cfg("U_ctor", "E_ctor", ctors="<- AllCtors", dev='{"RoutersMadeByNew"}'),
+                         workers=2, timeout=900, name="MCMux_ctordev", heap=sc.EMIT_JVM)
+        for name, f in futs:
+            r = f.result()
+            states += r.distinct
+            gen += r.generated
+            per[name] = r.distinct
+        dv, dv2 = dev.result(), dev2.result()
+    if "C14_WholeStanza" not in dv.violated:
+        raise verif.Undecided("design self-test: deviation SharedBuffer does not violate C14_WholeStanza:\n" + dv.out[-1500:])
+    # (whichever of the dispatch invariants a TLC worker reaches first)
+    if not ({"C14_Defaults", "C14_IsDispatch", "C14_PerChild", "C14_MostSpecific"} & set(dv2.violated)):
+        raise verif.Undecided("design self-test: deviation RoutersMadeByNew violates none of C14_Defaults / C14_PerChild / C14_IsDispatch / C14_MostSpecific:\n" + dv2.out[-1500:])
+    DEV2_SEEN[:] = dv2.violated
     return states, gen, per
 
 
@@ -45,7 +69,7 @@ def run(ctx):
         return
 
     with cf.ThreadPoolExecutor(max_workers=1) as ex:
-        fut = ex.submit(sc.emit_parallel, ctx, "EmitMux", [sc.mux_emit_cfg(ctx.tier, p) for p in (1, 2, 3)])
+        fut = ex.submit(sc.emit_parallel, ctx, "EmitMux", [sc.mux_emit_cfg(ctx.tier, p) for p in (1, 2, 3, 4)])
         states, gen, per = design_check(ctx, quick)
         res = fut.result()
     uni = sc.collect(res, r"mux_universe\.json")[0]
@@ -55,10 +79,13 @@ def run(ctx):
     ctx.log("TLC emitted %d dispatch vectors in %d groups + %d registration cases" % (
         nvec, len(vecs), sum(1 for _ in open(reg))))
 
-    summ = sc.run_driver(ctx, "mux", [uni, reg, out] + vecs)
+    summ = drive(ctx, uni, reg, out, vecs)
     mism = verif.read_ndjson(out)
-    ctx.log("driver: %d evaluations (2 namespaces x 3 reader styles + formatted XML for iqs), %d registration cases, %d mismatches" % (
-        summ["evaluations"], summ["registration_cases"], summ["mismatches"]))
+    ctx.log("driver: %d evaluations (2 namespaces x 3 reader styles + formatted XML for iqs; %d with nested routing - same goroutine and another "
+            "goroutine -, the inner stanza routed in %d), %d registration cases, %d mismatches" % (
+                summ["evaluations"], summ["nested_evaluations"], summ["nested_entered"], summ["registration_cases"], summ["mismatches"]))
+    if summ.get("stalls"):
+        raise verif.Undecided("%d nested routings did not return within the watchdog (not a verdict)" % summ["stalls"])
     sc.report_grouped(ctx, mism, signature, describe)
 
     nself = selftest(ctx, uni, vecs, reg)
@@ -69,15 +96,24 @@ def run(ctx):
         "registration_cases": summ["registration_cases"],
         "distinct_nontrivial": summ["distinct_observations"], "nontrivial_evaluations": summ["nontrivial"],
         "mismatches": summ["mismatches"], "binding_selftest_corruptions_rejected": nself,
+        "nested_routing_evaluations": summ["nested_evaluations"], "nested_routing_inner_stanza_routed": summ["nested_entered"],
+        "deviation_caught": "SharedBuffer -> C14_WholeStanza; RoutersMadeByNew -> " + ", ".join(DEV2_SEEN),
+        "constructions": summ.get("constructions"),
         "exhaustive": "every subset of the nine-name pattern universe (512) per stanza kind and type, with and "
                       "without the same names under another type / kind, x every incoming name; message/presence "
                       "child sequences of length <= %d over 5 payload names and text" % (2 if quick else 3),
         "reader_styles": ["xml.Decoder (character data valid until the next read only)", "token slice, last token delivered together with io.EOF", "children with character data of their own (text the handlers are shown is compared with the stanza's)"],
         "rule": "an evaluation is non-trivial if a handler ran or the multiplexer wrote something; distinct = distinct "
-                "(kind, invocation log, output) observations",
+                "(kind, invocation log, output) observations (counted per driver process and added up); nested routing: the handler of child payload 1 / 2 of a message or presence "
+                "routes a second stanza (message, presence, iq; own reader and encoder) through the SAME ServeMux before / after it reads "
+                "what it was handed, on its own goroutine and on another one while it waits; every handler of either stanza must obtain "
+                "its own stanza whole from its start element (id compared); construction of the multiplexer: mux.New(ns, options...) / the options applied "
+                "to the zero value / applied to the result of New / half of them applied after a first element was routed - rotating against "
+                "namespace and reader style so that every vector meets every construction; the expectation does not depend on it",
         "samples": summ["samples"][:3],
-        "design_check": "MCMux: six configurations (top, iq get, iq result, message, presence, replay buffer); "
-                        "2^10..2^12 tables each",
+        "design_check": "MCMux: eight configurations (top, iq get, iq result, message, presence, replay buffer, nested routing, construction "
+                        "incl. registration after first use); 2^10..2^12 tables each; deviations SharedBuffer (rejected by C14_WholeStanza) and "
+                        "RoutersMadeByNew (rejected by C14_Defaults)",
     }, assumptions=[
         "recording handlers return nil and write nothing; the stanza is handed to HandleXMPP as Serve does "
         "(start element consumed, decoder positioned behind it)",
@@ -85,12 +121,46 @@ def run(ctx):
         "a Handle pattern naming the stanza namespace itself"])
 
 
+def drive(ctx, uni, reg, out, vecs, shards=4):
+    """The driver in `shards` processes side by side (vector files dealt out by size, the registration cases go to the first)."""
+    b = ctx.go_build("serve")
+    bins = [[] for _ in range(shards)]
+    for f in sorted(vecs, key=os.path.getsize, reverse=True):
+        min(bins, key=lambda x: sum(os.path.getsize(g) for g in x)).append(f)
+    bins = [x for x in bins if x]
+
+    def one(i):
+        o = "%s.%d" % (out, i)
+        text = ctx.run_driver(b, ["mux", uni, reg if i == 0 else "-", o] + bins[i], timeout=2400)
+        if "SUMMARY " not in text:
+            raise verif.Undecided("driver serve mux printed no summary:\n%s" % text[-2000:])
+        return o, json.loads(text[text.rindex("SUMMARY ") + 8:].splitlines()[0])
+    with cf.ThreadPoolExecutor(max_workers=len(bins)) as ex:
+        parts = list(ex.map(one, range(len(bins))))
+    tot = {}
+    with open(out, "w") as fo:
+        for o, summ in parts:
+            fo.write(open(o).read())
+            os.remove(o)
+            for k, v in summ.items():
+                if isinstance(v, dict):
+                    d = tot.setdefault(k, {})
+                    for kk, vv in v.items():
+                        d[kk] = d.get(kk, 0) + vv
+                else:
+                    tot[k] = tot.get(k, [] if isinstance(v, list) else 0) + v
+    return tot
+
+
 def signature(m):
     v = m["vector"]
     if m["kind"] == "reg":
         return ("reg", v["form"], v["pre"], v["kt"] == 1)
     obs = m.get("observed") or {}
-    return ("vector", v["el"]["kind"], bool(m.get("panic")), bool(m.get("error")), bool(m.get("register_panic")),
+    if v.get("nest"):
+        return ("nested", v["el"]["kind"], v["nest"]["el"]["kind"], v["nest"]["when"], "+goroutine" in m.get("style", ""),
+                bool(m.get("panic")), bool(m.get("error")))
+    return ("vector", v["el"]["kind"], bool(m.get("panic")) and m.get("ctor"), bool(m.get("panic")), bool(m.get("error")), bool(m.get("register_panic")),
             len(obs.get("inv") or []) - len(v["alts"][0]["inv"]))
 
 
@@ -101,8 +171,16 @@ def describe(m):
                 "refused=%s; afterwards %s observed %s%s" % (
                     v["kt"], v["ni"], v["form"], bool(v["pre"]), m.get("refused"), v["refused"], m.get("xml", ""),
                     json.dumps(m.get("observed"))[:200], (" panic: " + m["panic"]) if m.get("panic") else ""))
-    return "mux dispatch of %s with table kt=%d mask=%d others=%d: expected %s, observed %s %s%s%s" % (
-        m.get("xml"), v["kt"], v["mask"], v["oth"], json.dumps(v["alts"])[:300], json.dumps(m.get("observed"))[:300],
+    nest = ""
+    if v.get("nest"):
+        n = v["nest"]
+        nest = (" while the handler of invocation %d routes %s through the same multiplexer (%s it reads what it was handed; %s)" % (
+            n["at"], m.get("inner_xml"), "before" if n["when"] == "pre" else "after",
+            "on another goroutine, the handler waiting" if "+goroutine" in m.get("style", "") else "on the same goroutine"))
+    made = {"new": "mux.New(ns, options...)", "zero": "the options applied to the zero value &mux.ServeMux{}", "late": "mux.New(ns), then the options applied to it",
+            "afteruse": "half of the options applied after a first element was routed"}.get(m.get("ctor"), m.get("ctor"))
+    return "mux (made by %s) dispatch of %s%s with table kt=%d mask=%d others=%d: expected %s, observed %s %s%s%s" % (
+        made, m.get("xml"), nest, v["kt"], v["mask"], v["oth"], json.dumps(v["alts"])[:300], json.dumps(m.get("observed"))[:300],
         m.get("error") or "", (" panic: " + m["panic"]) if m.get("panic") else "",
         (" registration panicked: " + m["register_panic"]) if m.get("register_panic") else "")
 
